@@ -53,23 +53,15 @@ fn linked<F: AnyF>(a: &Rc<SweepEvent<F>>, b: &Rc<SweepEvent<F>>) -> bool {
     ok
 }
 
+/// the i-th event created (Kani: read from the push contract stub's record)
 #[cfg(kani)]
-fn take_pushed<F: AnyF>(queue: BinaryHeap<Rc<SweepEvent<F>>>) -> Vec<Rc<SweepEvent<F>>> {
-    std::mem::forget(queue);
-    let mut v = Vec::with_capacity(24);
-    let mut i = 0;
-    while i < pushed_count() {
-        v.push(unsafe { pushed::<Rc<SweepEvent<F>>>(i) });
-        i += 1;
-    }
-    v
+fn nth_pushed<F: AnyF>(i: usize) -> Rc<SweepEvent<F>> {
+    unsafe { pushed::<Rc<SweepEvent<F>>>(i) }
 }
 
 #[cfg(not(kani))]
-fn take_pushed<F: AnyF>(queue: BinaryHeap<Rc<SweepEvent<F>>>) -> Vec<Rc<SweepEvent<F>>> {
-    // replay: the real heap; restore creation order (pairs are pushed e1, e2) is not possible, so sort by address
-    // of creation is unavailable -- the replay only re-checks per-pair clauses that do not depend on push order
-    queue.into_vec()
+fn nth_pushed<F: AnyF>(_i: usize) -> Rc<SweepEvent<F>> {
+    unimplemented!("fill_queue instances are not replayed natively (creation order is not observable on the real heap)")
 }
 
 /// exactly the edge `collapsed` of the ring is degenerate (3: none)
@@ -113,46 +105,46 @@ pub fn fill_queue_contract_body<F: AnyF, S: Src>(s: &mut S, shape: u8) {
     vcover!(lex_lt(v[1], v[0]), "edge-against-sweep-direction");
 
     let queue = fill_queue(&subject, &clipping, &mut sbbox, &mut cbbox, op);
+    std::mem::forget(queue);
 
-    let ev = take_pushed::<F>(queue);
-    // edges in creation order: (start, end, subject, contour id, exterior flag)
+    // edges in creation order: (start, end, subject, contour id, exterior flag); at most 4 per instance
     let (cid, cext) = if op != Operation::Difference { (2, true) } else { (1, false) };
-    let edges: Vec<(Coord<F>, Coord<F>, bool, u32, bool)> = match shape {
-        0 => vec![(v[0], v[1], true, 1, true), (v[1], v[2], true, 1, true), (v[2], v[0], true, 1, true)],
-        1 => vec![(v[0], v[1], true, 1, true), (v[1], v[0], true, 1, true), (v[2], v[3], true, 1, false), (v[3], v[2], true, 1, false)],
-        2 => vec![(v[0], v[1], true, 1, true), (v[1], v[0], true, 1, true), (v[2], v[3], false, cid, cext), (v[3], v[2], false, cid, cext)],
-        3 => vec![(v[0], v[1], true, 1, true), (v[1], v[0], true, 1, true), (v[2], v[3], true, 2, true), (v[3], v[2], true, 2, true)],
-        _ => vec![(v[0], v[2], true, 1, true), (v[2], v[0], true, 1, true)],
+    let none = (v[0], v[0], false, 0u32, false);
+    let (n_edges, edges): (usize, [(Coord<F>, Coord<F>, bool, u32, bool); 4]) = match shape {
+        0 => (3, [(v[0], v[1], true, 1, true), (v[1], v[2], true, 1, true), (v[2], v[0], true, 1, true), none]),
+        1 => (4, [(v[0], v[1], true, 1, true), (v[1], v[0], true, 1, true), (v[2], v[3], true, 1, false), (v[3], v[2], true, 1, false)]),
+        2 => (4, [(v[0], v[1], true, 1, true), (v[1], v[0], true, 1, true), (v[2], v[3], false, cid, cext), (v[3], v[2], false, cid, cext)]),
+        3 => (4, [(v[0], v[1], true, 1, true), (v[1], v[0], true, 1, true), (v[2], v[3], true, 2, true), (v[3], v[2], true, 2, true)]),
+        _ => (2, [(v[0], v[2], true, 1, true), (v[2], v[0], true, 1, true), none, none]),
     };
-    assert!(ev.len() == 2 * edges.len(), "C13: exactly one pair of events per non-degenerate edge, none for a collapsed edge");
+    assert!(pushed_count() == 2 * n_edges, "C13: exactly one pair of events per non-degenerate edge, none for a collapsed edge");
+    let init_box = init;
+    let (mut sb, mut cb) = (init_box, init_box);
     let mut k = 0;
-    while k < edges.len() {
-        let (u, vv, subj, id, exterior) = edges[k];
-        let (e1, e2) = (&ev[2 * k], &ev[2 * k + 1]);
-        assert!(e1.point == u && e2.point == vv, "C04/C13: the two events sit on the edge's two vertices, bit for bit");
-        assert!(linked(e1, e2), "C13: the pair is mutually linked");
-        assert!(e1.is_left() != e2.is_left(), "C13: exactly one of the pair is the left event");
-        assert!(e1.is_left() == lex_lt(u, vv), "C13/C07: the left event is the (x, y)-smaller vertex, whatever the edge's direction");
-        assert!(e1.is_subject == subj && e2.is_subject == subj, "C13: operand flag");
-        assert!(e1.contour_id == id && e2.contour_id == id, "C05/C13: contour id");
-        assert!(e1.is_exterior_ring == exterior && e2.is_exterior_ring == exterior, "C05/C13: exterior-ring flag");
+    while k < 4 {
+        if k < n_edges {
+            let (u, vv, subj, id, exterior) = edges[k];
+            let (e1, e2) = (nth_pushed::<F>(2 * k), nth_pushed::<F>(2 * k + 1));
+            assert!(e1.point == u && e2.point == vv, "C04/C13: the two events sit on the edge's two vertices, bit for bit");
+            assert!(linked(&e1, &e2), "C13: the pair is mutually linked");
+            assert!(e1.is_left() != e2.is_left(), "C13: exactly one of the pair is the left event");
+            assert!(e1.is_left() == lex_lt(u, vv), "C13/C07: the left event is the (x, y)-smaller vertex, whatever the edge's direction");
+            assert!(e1.is_subject == subj && e2.is_subject == subj, "C13: operand flag");
+            assert!(e1.contour_id == id && e2.contour_id == id, "C05/C13: contour id");
+            assert!(e1.is_exterior_ring == exterior && e2.is_exterior_ring == exterior, "C05/C13: exterior-ring flag");
+            std::mem::forget((e1, e2));
+            // exact boxes: min / max over the vertices of each operand's edges
+            let b = if subj { &mut sb } else { &mut cb };
+            if u.x < b.min.x { b.min.x = u.x; }
+            if u.y < b.min.y { b.min.y = u.y; }
+            if u.x > b.max.x { b.max.x = u.x; }
+            if u.y > b.max.y { b.max.y = u.y; }
+        }
         k += 1;
     }
-    // exact boxes: min / max over the vertices of each operand's edges; an operand without edges keeps the empty box
-    let (mut sb, mut cb) = (init, init);
-    let mut k = 0;
-    while k < edges.len() {
-        let (u, _vv, subj, _id, _ext) = edges[k];
-        let b = if subj { &mut sb } else { &mut cb };
-        if u.x < b.min.x { b.min.x = u.x; }
-        if u.y < b.min.y { b.min.y = u.y; }
-        if u.x > b.max.x { b.max.x = u.x; }
-        if u.y > b.max.y { b.max.y = u.y; }
-        k += 1;
-    }
-    assert!(sbbox == sb, "C13: subject box is the exact min/max over the vertices");
-    assert!(cbbox == cb, "C13: clipping box is the exact min/max over the vertices");
-    std::mem::forget((ev, subject, clipping, edges));
+    assert!(sbbox == sb, "C13: subject box is the exact min/max over the vertices (an operand without edges keeps the empty box)");
+    assert!(cbbox == cb, "C13: clipping box is the exact min/max over the vertices (an operand without edges keeps the empty box)");
+    std::mem::forget((subject, clipping));
 }
 
 // ---- U-Q3 ---------------------------------------------------------------------------------------------------------------
@@ -270,7 +262,7 @@ mod proofs {
             #[kani::proof]
             #[kani::stub(robust::orient2d, orient2d_unreachable)]
             #[kani::stub(std::collections::BinaryHeap::push, heap_push_recorder)]
-            #[kani::unwind(10)]
+            #[kani::unwind(5)]
             fn $name() {
                 fill_queue_contract_body::<$f, _>(&mut KaniSrc, $shape);
             }
